@@ -913,7 +913,7 @@ def gen_level(rng, n, profile):
 # =====================================================================================================
 def tty_server():
     import ubxlib.server_tty as tty
-    tty.time = CLK
+    realenv.patch_time(tty)
     s = tty.GnssUBlox('/dev/gnss0', 115200)
     return s
 
@@ -1183,7 +1183,15 @@ class FakeSocketModule:
 
 def gpsd_server(device):
     import ubxlib.server as srv
-    srv.socket = FakeSocketModule
+    # whatever way the module reaches the socket API - `import socket` or names imported from it - goes to the stub
+    for name, val in list(vars(srv).items()):
+        if val is real_socket:
+            setattr(srv, name, FakeSocketModule)
+        elif val is real_socket.socket:
+            setattr(srv, name, FakeSocketModule.socket)
+    if getattr(srv, 'socket', None) is not FakeSocketModule and getattr(srv, 'socket', None) is not FakeSocketModule.socket:
+        srv.socket = FakeSocketModule
+    realenv.patch_time(srv)
     FakeSocketModule.script = {}
     FakeSocketModule.log = []
     return srv.GnssUBlox(device)
